@@ -68,8 +68,6 @@ mod c02_cmd;
 const REPLY_WAIT_MS: u64 = 1500;
 /// address of a node that does not exist: peer of the filler sessions
 const NOWHERE: usize = 7;
-/// sender of the stray datagrams
-const STRAY: usize = 5;
 
 fn kv(op: &str) -> HashMap<String, String> {
     let mut m = HashMap::new();
@@ -678,11 +676,9 @@ async fn run_script<'a, C: Crypto>(
             _ => "skip".into(),
         };
         sh.dup_opcode.set(None);
-        // A stray one-byte datagram from nowhere. `Transport::accept_if` evaluates its predicate on the headers of
-        // the LAST received datagram whenever it is polled, which refreshes `last_use` of that datagram's session;
-        // on the virtual clock a poll and the next arrival share one instant, and `get_session_for_eviction` skips a
-        // session used in that very instant. With the stray datagram the stale headers belong to no session.
-        net.inject(STRAY, 0, &[0u8]);
+        // (Before repo fix `e29fea6` a stray one-byte datagram was injected here: `Transport::accept_if` used to
+        // evaluate its predicate on the stale headers of the last datagram at every poll and thereby refreshed
+        // `last_use` of that datagram's session, which kept it from being evicted. No longer needed.)
         // let the device finish what the message triggered
         Timer::after(Duration::from_millis(20)).await;
         // remember the datagram that carried this handshake message (for `resend`)
